@@ -397,9 +397,19 @@ def joinRow (r : Row) (optional : Bool) (newBindings : List Bytes) (fetched : Li
   else rows.map fun nr => r.merge nr
 
 /-- `addSpecifiedData`: specialise the clause with one row and fetch. Returns the rows that replace it. -/
+def Clause.extractsNothing (c : Clause) : Bool :=
+  c.sBinding = [] && c.sAlias = [] && c.sTypeAlias = [] && c.sIDAlias = [] && c.pBinding = [] && c.pAlias = [] &&
+  c.pIDAlias = [] && c.pAnchorBinding = [] && c.pAnchorAlias = [] && c.oBinding = [] && c.oAlias = [] &&
+  c.oTypeAlias = [] && c.oIDAlias = [] && c.oAnchorBinding = [] && c.oAnchorAlias = []
+
 def addSpecifiedData (F : Facts) (gs : List QGraph) (r : Row) (c : Clause) (lo : QOpts) (stmLimit : Int) :
     Except QErr (List Row) := do
   let (c', lo') ← specialise r c lo
+  if c'.extractsNothing then
+    -- constants and row-bounded predicates only: the clause has to hold for the row (probe)
+    let rows ← simpleFetch F gs { c' with sAlias := [63, 95, 95, 101, 120, 105, 115, 116, 115] } lo' 0
+    pure (if !rows.isEmpty || c.optional then [r] else [])
+  else
   let rows ← simpleFetch F gs c' lo' stmLimit
   pure (joinRow r c.optional c'.bindings rows)
 
